@@ -53,6 +53,7 @@ type EngScenario struct {
 	ROrder   []int      `json:"rorder"`   // the runner nodes in candidate iteration order (computed here from order)
 	All      bool       `json:"all"`      // finally look every pool component up through Factory.GetComponents(InterfaceType(Nd))
 	RawOrder bool       `json:"rawOrder"` // do not wrap the definition registry: candidates come in the real registry's own order
+	Once     []bool     `json:"once"`     // per node: its fault is transient - it fires only while nothing has failed yet in this container
 	Prewire  [][]int    `json:"prewire"`  // per node: single-valued targets whose field the user filled by hand (raw object) before the start
 	Late     []bool     `json:"late"`     // per node: its slice point is served by a user-written collector that runs after further matching (custom tag, optional)
 	Conf     bool       `json:"conf"`     // the start has a configuration document (derived from the seed): the nodes' own value / prop / prefix points
@@ -179,14 +180,20 @@ type env struct {
 	lastWe     map[int]any
 	aborted    bool
 	ap         *app.App
+	failedEver bool // a creation has returned an error / an early-reference factory has failed (as Container.tla's failedEver)
 	defs       container.DefinitionRegistry
 	lateOf     map[string][]int // holder name -> the targets its user-written collector hands in (the holder included when listed)
 }
 
 type reentry struct{ n int }
 
+// faulty: does the injected fault `tag` of node id fire now?  (a transient one only while nothing has failed yet)
+func (e *env) faulty(id int, tag string) bool {
+	return e.sc.Fail[id-1] == tag && (!e.sc.Once[id-1] || !e.failedEver)
+}
+
 func (e *env) cb(ev string, id int) error {
-	fail := e.sc.Fail[id-1] == ev
+	fail := e.faulty(id, ev)
 	x := map[string]any{"ok": !fail}
 	if c, ok := e.objs[id].(interface{ cfgOK() bool }); ok {
 		x["cfg"] = c.cfgOK()
@@ -354,6 +361,9 @@ func (t *traceReg) GetSingleton(name string, early bool) (*component_definition.
 		before = t.e.earlyTotal[id-1]
 	}
 	m, err := t.inner.GetSingleton(name, early)
+	if id != 0 && err != nil {
+		t.e.failedEver = true
+	}
 	if id != 0 {
 		ev := "get"
 		if !early {
@@ -384,6 +394,9 @@ func (t *traceReg) GetSingletonOrCreateByFactory(name string, f container.Single
 		return f.GetComponent()
 	}))
 	if id != 0 {
+		if err != nil {
+			t.e.failedEver = true
+		}
 		t.e.emit("createEnd", id, map[string]any{"ok": err == nil, "res": t.e.ver(m)})
 	}
 	return m, err
@@ -465,7 +478,7 @@ func (r *rigCore) PostProcessProperties(ps []*component_definition.Property, com
 				}
 			}
 		}
-		fail := r.e.sc.Fail[id-1] == "resolve"
+		fail := r.e.faulty(id, "resolve")
 		r.e.emit("resolve", id, map[string]any{"ok": !fail})
 		if fail {
 			return nil, fmt.Errorf("injected resolve failure n%d", id)
@@ -526,7 +539,7 @@ func (r *rig) GetEarlyBeanReference(c any, name string) (any, error) {
 	if id == 0 {
 		return c, nil
 	}
-	if r.e.sc.Fail[id-1] == "early" {
+	if r.e.faulty(id, "early") {
 		return nil, fmt.Errorf("injected early failure")
 	}
 	switch r.e.sc.Wrap[id-1] {
@@ -581,6 +594,9 @@ func runEngScenario(sc *EngScenario) []map[string]any {
 	sc.Conf = sc.Seed%2 == 1
 	if len(sc.Late) != sc.N {
 		sc.Late = make([]bool, sc.N)
+	}
+	if len(sc.Once) != sc.N {
+		sc.Once = make([]bool, sc.N)
 	}
 	if len(sc.Prewire) != sc.N {
 		sc.Prewire = make([][]int, sc.N)
